@@ -92,7 +92,26 @@ pub fn scenario(u: &Unit) -> String {
             // nothing exported: the result does not depend on k at all
             ob(&format!("noexport=>B(k)=B(0).{}", nm), k(0.0).lt_(bk.exp.an).or(bb[j].1.ident(b0c[j].1)));
         }
-        // per service
+        // per service: B_srv(k) and A_srv are the carrier's B(k) and A times the service's share of the EPB use
+        // (reverse calculation), so they are affine in k exactly like the carrier's figures
+        for (srv, r) in sorted_kv(w.b_by_srv.iter()) {
+            let share = match crate::by_name!(bk.used.epus_by_srv_an, srv) {
+                Some(s) => *s / bk.used.epus_an,
+                None => {
+                    ob(&format!("B_srv(k).{}.{}.has-use", cname, srv), f());
+                    continue;
+                }
+            };
+            let has_use = k(0.0).lt_(bk.used.epus_an);
+            for ((n, x), (_, whole)) in comps(r).iter().zip(comps(&w.b).iter()) {
+                ob(&format!("B_srv(k)=B(k)*share.{}.{}.{}", cname, srv, n), has_use.clone().not().or(x.ident(*whole * share)));
+            }
+            if let Some(ra) = crate::by_name!(w.a_by_srv, srv) {
+                for ((n, x), (_, whole)) in comps(ra).iter().zip(comps(&w.a).iter()) {
+                    ob(&format!("A_srv=A*share.{}.{}.{}", cname, srv, n), has_use.clone().not().or(x.ident(*whole * share)));
+                }
+            }
+        }
         for (srv, r) in sorted_kv(w.b_by_srv.iter()) {
             let r0 = crate::by_name!(b0.we.b_by_srv, srv);
             let ra = crate::by_name!(b0.we.a_by_srv, srv);
